@@ -910,7 +910,7 @@ class C11Check(PCheck):
                 # them changes the chemistry that is recoverable, not just the presentation (DESIGN.md section 7)
                 v['present']['hren'] = rng.randrange(1 << 30)
             if kind in ('rigid', 'combo'):
-                span = 900000 if rng.random() < 0.3 else 20000      # a structure far from the origin is the same structure
+                span = 450000 if rng.random() < 0.3 else 20000      # stays inside the PDB coordinate columns      # a structure far from the origin is the same structure
                 v['present']['rigid'] = [rng.randrange(24)] + [rng.randrange(-span, span) for _ in range(3)]
             if kind == 'mem_rigid':
                 far = 80.0 if rng.random() < 0.3 else 3.0
